@@ -84,24 +84,59 @@ Section RangeProofs.
   Qed.
 
   (* ---- the whole proof ---- *)
+  (* Any answer (x, y, u, w) that opens ca1^s ca2 ca3 and ca1 ca2^t ca3 with positive x, y is accepted,
+     whatever m4, m1, r1, r2 the commitments were built from. *)
+  Lemma build_pair_accepts v a b rd m4 m1 r1 r2 s t x y u w' :
+    let pp := build_pair G gmul gone ginv g h Hsh v a b rd m4 m1 r1 r2 in
+    0 < x -> 0 < y ->
+    com g h x u = com g h (s * p_m1 (snd pp) + p_m2 (snd pp) + p_m3 (snd pp)) (s * p_r1 (snd pp) + p_r2 (snd pp) + p_r3 (snd pp)) ->
+    com g h y w' = com g h (p_m1 (snd pp) + t * p_m2 (snd pp) + p_m3 (snd pp)) (p_r1 (snd pp) + t * p_r2 (snd pp) + p_r3 (snd pp)) ->
+    range_check G gmul gone ginv geqb g h Hsh (fst pp) a b s t (x, y, u, w') = true.
+  Proof.
+    cbv zeta. unfold build_pair. cbv zeta. cbn [fst snd p_m1 p_m2 p_m3 p_r1 p_r2 p_r3].
+    set (r := d_r rd). set (ra := d_ra rd). set (raa := d_raa rd * d_raa rd). set (w := d_w rd).
+    set (mst := w * w * (v - a + 1) * (b - v + 1)).
+    set (rst := w * w * ((b - v + 1) * r + ra) + raa).
+    set (m2 := mst - m1 - m4 * m4). set (r3 := rst - r1 - r2).
+    intros Hx Hy Ex Ey.
+    unfold range_check. cbn [pub_com pub_el pub_sqr1 pub_sqr2 k_c k_c1 k_c2 k_ca k_ca1 k_ca2 k_ca3 k_caa].
+    change (pw g v ** pw h r) with (com g h v r).
+    change (pw g m1 ** pw h r1) with (com g h m1 r1).
+    change (pw g m2 ** pw h r2) with (com g h m2 r2).
+    assert (Ec1 : com g h v r ** ginv (pw g (a - 1)) = com g h (v - a + 1) r).
+    { rewrite <- (gpow_neg G gmul gone ginv A C O I), (com_base_l g h (- (a - 1))), com_mul. apply com_eq; ring. }
+    assert (Ec2 : pw g (b + 1) ** ginv (com g h v r) = com g h (b - v + 1) (- r)).
+    { rewrite com_inv, (com_base_l g h (b + 1)), com_mul. apply com_eq; ring. }
+    assert (Eca : pw (com g h (v - a + 1) r) (b - v + 1) ** pw h ra = com g h ((v - a + 1) * (b - v + 1)) (r * (b - v + 1) + ra)).
+    { rewrite com_pow, (com_base_r g h ra), com_mul. apply com_eq; ring. }
+    assert (Ecaa : pw (com g h ((v - a + 1) * (b - v + 1)) (r * (b - v + 1) + ra)) (w * w) ** pw h raa = com g h mst rst).
+    { rewrite com_pow, (com_base_r g h raa), com_mul. apply com_eq; unfold mst, rst; ring. }
+    assert (Eca3 : com g h mst rst ** ginv (com g h m1 r1 ** com g h m2 r2) = com g h (m4 * m4) r3).
+    { rewrite com_mul, com_inv, com_mul. apply com_eq; unfold m2, r3; ring. }
+    rewrite !Ec1. rewrite !Eca. rewrite !Ecaa. rewrite !Eca3.
+    repeat (apply andb_true_iff; split).
+    - rewrite Ec2. rewrite <- Eca. apply el_complete.
+    - rewrite <- Ecaa. apply sqr_complete.
+    - apply sqr_complete.
+    - apply geqb_refl.
+    - apply geqb_refl.
+    - rewrite !com_mul. replace (m1 + m2 + m4 * m4) with mst by (unfold m2; ring).
+      replace (r1 + r2 + r3) with rst by (unfold r3; ring). apply geqb_refl.
+    - change (pw g x ** pw h u) with (com g h x u). rewrite Ex.
+      rewrite com_pow, !com_mul.
+      replace (m1 * s + m2 + m4 * m4) with (s * m1 + m2 + m4 * m4) by ring.
+      replace (r1 * s + r2 + r3) with (s * r1 + r2 + r3) by ring. apply geqb_refl.
+    - change (pw g y ** pw h w') with (com g h y w'). rewrite Ey.
+      rewrite com_pow, !com_mul.
+      replace (m1 + m2 * t + m4 * m4) with (m1 + t * m2 + m4 * m4) by ring.
+      replace (r1 + r2 * t + r3) with (r1 + t * r2 + r3) by ring. apply geqb_refl.
+    - lia.
+    - lia.
+  Qed.
+
   Lemma create_ok_inv v a b rd pub priv :
     create_attest_pair G gmul gone ginv g h Hsh v a b rd = Ok (pub, priv) ->
-    let r := d_r rd in let ra := d_ra rd in let raa := d_raa rd * d_raa rd in let w := d_w rd in
-    let mst := w * w * (v - a + 1) * (b - v + 1) in
-    let rst := w * w * ((b - v + 1) * r + ra) + raa in
-    let m4 := d_m4 rd mod (Z.sqrt mst - 1) in
-    let cc := com g h v r in
-    let c1 := cc ** ginv (pw g (a - 1)) in
-    let ca := pw c1 (b - v + 1) ** pw h ra in
-    let caa := pw ca (w * w) ** pw h raa in
-    0 < m4 /\ 0 < p_m1 priv /\ p_m3 priv = m4 * m4 /\ p_m2 priv = mst - p_m1 priv - p_m3 priv /\
-    p_r3 priv = rst - p_r1 priv - p_r2 priv /\
-    pub = MkPub G (MkCom G cc c1 (pw g (b + 1) ** ginv cc) ca (com g h (p_m1 priv) (p_r1 priv))
-                          (com g h (p_m2 priv) (p_r2 priv))
-                          (caa ** ginv (com g h (p_m1 priv) (p_r1 priv) ** com g h (p_m2 priv) (p_r2 priv))) caa)
-                    (el_create G gmul gone ginv Hsh (b - v + 1) (- r) ra g h c1 h (d_el rd))
-                    (sqr_create G gmul gone ginv Hsh w raa ca h (d_sq1 rd))
-                    (sqr_create G gmul gone ginv Hsh m4 (p_r3 priv) g h (d_sq2 rd)).
+    exists m4 m1 r1 r2, 0 < m4 /\ 0 < m1 /\ (pub, priv) = build_pair G gmul gone ginv g h Hsh v a b rd m4 m1 r1 r2.
   Proof.
     unfold create_attest_pair. cbv zeta.
     set (mst := d_w rd * d_w rd * (v - a + 1) * (b - v + 1)).
@@ -113,23 +148,22 @@ Section RangeProofs.
     match goal with |- (if ?c then _ else _) = _ -> _ => destruct c eqn:E5; [discriminate|] end.
     match goal with |- (if ?c then _ else _) = _ -> _ => destruct c eqn:E6; [discriminate|] end.
     match goal with |- (if ?c then _ else _) = _ -> _ => destruct c eqn:E7; [discriminate|] end.
-    intros H. inversion H; subst pub priv; clear H. cbn [p_m1 p_m2 p_m3 p_r1 p_r2 p_r3].
+    intros H. inversion H as [H']; clear H.
     set (m4 := d_m4 rd mod (Z.sqrt mst - 1)) in *.
     assert (Hs : 0 <= Z.sqrt mst) by apply Z.sqrt_nonneg.
     assert (Hm4 : 0 < m4).
     { destruct (Z_lt_dec (Z.sqrt mst - 1) 0) as [Hneg|Hpos].
-      - assert (Z.sqrt mst - 1 = -1) by lia. unfold m4 in E2. rewrite H in E2.
+      - assert (Hk : Z.sqrt mst - 1 = -1) by lia. unfold m4 in E2. rewrite Hk in E2.
         pose proof (Z.mod_neg_bound (d_m4 rd) (-1) ltac:(lia)). lia.
-      - pose proof (Z.mod_pos_bound (d_m4 rd) (Z.sqrt mst - 1) ltac:(lia)). fold m4 in H. lia. }
+      - pose proof (Z.mod_pos_bound (d_m4 rd) (Z.sqrt mst - 1) ltac:(lia)) as Hb. fold m4 in Hb. lia. }
     assert (Hk1 : 0 < mst - m4).
     { destruct (Z_lt_dec (Z.sqrt mst - 1) 0) as [Hneg|Hpos].
-      - assert (Z.sqrt mst - 1 = -1) by lia. unfold m4 in Hm4. rewrite H in Hm4.
+      - assert (Hk : Z.sqrt mst - 1 = -1) by lia. unfold m4 in Hm4. rewrite Hk in Hm4.
         pose proof (Z.mod_neg_bound (d_m4 rd) (-1) ltac:(lia)). lia.
-      - pose proof (Z.mod_pos_bound (d_m4 rd) (Z.sqrt mst - 1) ltac:(lia)). fold m4 in H.
+      - pose proof (Z.mod_pos_bound (d_m4 rd) (Z.sqrt mst - 1) ltac:(lia)) as Hb. fold m4 in Hb.
         pose proof (Z.sqrt_le_lin mst ltac:(lia)). lia. }
     pose proof (Z.mod_pos_bound (d_m1 rd) (mst - m4) Hk1) as Hm1.
-    split; [exact Hm4|]. split; [lia|]. split; [reflexivity|]. split; [reflexivity|]. split; [reflexivity|].
-    reflexivity.
+    eexists m4, _, _, _. split; [exact Hm4|]. split; [|reflexivity]. lia.
   Qed.
 
   (* honest prover, honest verifier: every equation of PengBaoPublicData.check holds *)
@@ -138,50 +172,57 @@ Section RangeProofs.
     0 <= p_m2 priv -> 0 < s -> 0 < t ->
     range_check G gmul gone ginv geqb g h Hsh pub a b s t (generate_response priv s t) = true.
   Proof.
-    intros Hc Hm2 Hs Ht. pose proof (create_ok_inv _ _ _ _ _ _ Hc) as Hinv. cbv zeta in Hinv.
-    destruct Hinv as (Hm4 & Hm1 & Hm3 & Hm2e & Hr3 & ->).
-    set (r := d_r rd) in *. set (ra := d_ra rd) in *. set (raa := d_raa rd * d_raa rd) in *. set (w := d_w rd) in *.
-    set (mst := w * w * (v - a + 1) * (b - v + 1)) in *.
-    set (rst := w * w * ((b - v + 1) * r + ra) + raa) in *.
-    set (m4 := d_m4 rd mod (Z.sqrt mst - 1)) in *.
-    destruct priv as [m1 m2 m3 r1 r2 r3]. cbn [p_m1 p_m2 p_m3 p_r1 p_r2 p_r3] in *.
-    unfold range_check, generate_response. cbn [p_m1 p_m2 p_m3 p_r1 p_r2 p_r3 pub_com pub_el pub_sqr1 pub_sqr2
-      k_c k_c1 k_c2 k_ca k_ca1 k_ca2 k_ca3 k_caa].
-    (* normal forms over g, h *)
-    assert (Ec1 : com g h v r ** ginv (pw g (a - 1)) = com g h (v - a + 1) r).
-    { rewrite <- (gpow_neg G gmul gone ginv A C O I), (com_base_l g h (- (a - 1))), com_mul. apply com_eq; ring. }
-    assert (Ec2 : pw g (b + 1) ** ginv (com g h v r) = com g h (b - v + 1) (- r)).
-    { rewrite com_inv, (com_base_l g h (b + 1)), com_mul. apply com_eq; ring. }
-    assert (Eca : pw (com g h (v - a + 1) r) (b - v + 1) ** pw h ra = com g h ((v - a + 1) * (b - v + 1)) (r * (b - v + 1) + ra)).
-    { rewrite com_pow, (com_base_r g h ra), com_mul. apply com_eq; ring. }
-    assert (Ecaa : pw (com g h ((v - a + 1) * (b - v + 1)) (r * (b - v + 1) + ra)) (w * w) ** pw h raa = com g h mst rst).
-    { rewrite com_pow, (com_base_r g h raa), com_mul. apply com_eq; unfold mst, rst; ring. }
-    assert (Eca3 : com g h mst rst ** ginv (com g h m1 r1 ** com g h m2 r2) = com g h (m4 * m4) r3).
-    { rewrite com_mul, com_inv, com_mul. clear Hc.
-      apply com_eq.
-      - lia.
-      - lia. }
-    rewrite !Ec1. rewrite !Eca. rewrite !Ecaa. rewrite !Eca3.
-    repeat (apply andb_true_iff; split).
-    - (* EL: c2 and ca commit to b - v + 1 under bases (g, h) and (c1, h) *)
-      rewrite Ec2. rewrite <- Eca. apply el_complete.
-    - (* SQR1: caa = ca^(w^2) h^raa *)
-      rewrite <- Ecaa. apply sqr_complete.
-    - (* SQR2: ca3 = g^(m4^2) h^r3 *)
-      apply sqr_complete.
-    - apply geqb_refl.
-    - apply geqb_refl.
-    - rewrite !com_mul. replace (m1 + m2 + m4 * m4) with mst by lia. replace (r1 + r2 + r3) with rst by lia. apply geqb_refl.
-    - change (pw g (s * m1 + m2 + m3) ** pw h (s * r1 + r2 + r3)) with (com g h (s * m1 + m2 + m3) (s * r1 + r2 + r3)).
-      rewrite com_pow, !com_mul.
-      replace (m1 * s + m2 + m4 * m4) with (s * m1 + m2 + m3) by lia.
-      replace (r1 * s + r2 + r3) with (s * r1 + r2 + r3) by lia. apply geqb_refl.
-    - change (pw g (m1 + t * m2 + m3) ** pw h (r1 + t * r2 + r3)) with (com g h (m1 + t * m2 + m3) (r1 + t * r2 + r3)).
-      rewrite com_pow, !com_mul.
-      replace (m1 + m2 * t + m4 * m4) with (m1 + t * m2 + m3) by lia.
-      replace (r1 + r2 * t + r3) with (r1 + t * r2 + r3) by lia. apply geqb_refl.
-    - nia.
-    - nia.
+    intros Hc Hm2 Hs Ht. destruct (create_ok_inv _ _ _ _ _ _ Hc) as (m4 & m1 & r1 & r2 & Hm4 & Hm1 & Hpp).
+    pose proof (build_pair_accepts v a b rd m4 m1 r1 r2 s t) as Hacc. cbv zeta in Hacc.
+    rewrite <- Hpp in Hacc. cbn [fst snd] in Hacc. unfold generate_response.
+    assert (Hm3 : p_m3 priv = m4 * m4 /\ p_m1 priv = m1).
+    { unfold build_pair in Hpp. cbv zeta in Hpp. inversion Hpp. cbn [p_m1 p_m3]. split; reflexivity. }
+    destruct Hm3 as [Hm3 Hm1e].
+    apply Hacc; try reflexivity; nia.
+  Qed.
+
+  (* refutation of soundness against whoever knows the order of the group (the key owner does: n = t1*t2):
+     the commitments can be built for ANY value - inside the range or not - with a negative part in the
+     decomposition, and answers reduced modulo n are positive and satisfy every equation *)
+  Lemma gpow_mod_order x n k : gpow G gmul gone ginv x n = gone -> pw x (k mod n + n) = pw x k.
+  Proof.
+    intros Hn. destruct (Z.eq_dec n 0) as [->|Hnz].
+    { rewrite Zmod_0_r, Z.add_0_r. reflexivity. }
+    pose proof (Z.div_mod k n Hnz) as Hk.
+    replace (k mod n + n) with (k + n * (1 - k / n)) by lia.
+    rewrite (gpow_add G gmul gone ginv A C O I), <- (gpow_gpow G gmul gone ginv A C O I), Hn,
+            (gpow_one G gmul gone ginv A C O I). apply (gmul_one_r G gmul gone C O).
+  Qed.
+
+  Lemma range_forgery_l n v a b rd m4 m1 r1 r2 s t : 0 < n ->
+    gpow G gmul gone ginv g n = gone ->
+    exists resp, range_check G gmul gone ginv geqb g h Hsh
+                   (fst (build_pair G gmul gone ginv g h Hsh v a b rd m4 m1 r1 r2)) a b s t resp = true.
+  Proof.
+    intros Hn Hg.
+    set (pp := build_pair G gmul gone ginv g h Hsh v a b rd m4 m1 r1 r2).
+    set (x0 := s * p_m1 (snd pp) + p_m2 (snd pp) + p_m3 (snd pp)).
+    set (y0 := p_m1 (snd pp) + t * p_m2 (snd pp) + p_m3 (snd pp)).
+    exists (x0 mod n + n, y0 mod n + n, s * p_r1 (snd pp) + p_r2 (snd pp) + p_r3 (snd pp),
+            p_r1 (snd pp) + t * p_r2 (snd pp) + p_r3 (snd pp)).
+    pose proof (Z.mod_pos_bound x0 n Hn). pose proof (Z.mod_pos_bound y0 n Hn).
+    apply (build_pair_accepts v a b rd m4 m1 r1 r2 s t); try lia.
+    - unfold com. rewrite (gpow_mod_order g n x0 Hg). reflexivity.
+    - unfold com. rewrite (gpow_mod_order g n y0 Hg). reflexivity.
+  Qed.
+
+  (* the intended soundness statement "an accepted proof whose commitment opens to v has a <= v <= b" is
+     false of the model as soon as the order of g is known: for EVERY v and r there is public data whose
+     commitment is g^v h^r and an answer that range_check accepts *)
+  Lemma range_soundness_refuted_l n v a b s t r : 0 < n -> gpow G gmul gone ginv g n = gone ->
+    exists pub resp, k_c G (pub_com G pub) = com g h v r /\
+                     range_check G gmul gone ginv geqb g h Hsh pub a b s t resp = true.
+  Proof.
+    intros Hn Hg.
+    set (rd := MkRR r 0 0 1 0 0 0 0 (0, 0, 0) (0, 0, 0, 0) (0, 0, 0, 0)).
+    destruct (range_forgery_l n v a b rd 0 1 0 0 s t Hn Hg) as (resp & Hresp).
+    exists (fst (build_pair G gmul gone ginv g h Hsh v a b rd 0 1 0 0)), resp.
+    split; [reflexivity|exact Hresp].
   Qed.
 
   (* for a value outside [a, b] the construction never returns: the square root is undefined
